@@ -89,19 +89,48 @@ pub trait ChainStore: Send + Sync + Sized {
         }
     }
 
+    /// Get the block with given hash from the freezer, if it has been frozen
+    ///
+    /// The body, uncles, proposals and extension of a frozen block are wiped out of the
+    /// key-value store, the accessors of these parts fall back to the freezer.
+    fn get_frozen_block(&self, hash: &packed::Byte32) -> Option<packed::Block> {
+        let freezer = self.freezer()?;
+        let header = self.get_block_header(hash)?;
+        if header.number() == 0 || header.number() >= freezer.number() {
+            return None;
+        }
+        let raw_block = freezer.retrieve(header.number()).expect("block frozen")?;
+        let block = packed::BlockReader::from_compatible_slice(&raw_block)
+            .expect("checked data")
+            .to_entity();
+        // only main chain blocks are frozen, the header of a side chain block may linger
+        (&block.header().calc_header_hash() == hash).then_some(block)
+    }
+
     /// Get block body by block header hash
     fn get_block_body(&self, hash: &packed::Byte32) -> Vec<TransactionView> {
         let prefix = hash.as_slice();
-        self.get_iter(
-            COLUMN_BLOCK_BODY,
-            IteratorMode::From(prefix, Direction::Forward),
-        )
-        .take_while(|(key, _)| key.starts_with(prefix))
-        .map(|(_key, value)| {
-            let reader = packed::TransactionViewReader::from_slice_should_be_ok(value.as_ref());
-            Into::<TransactionView>::into(reader)
-        })
-        .collect()
+        let body: Vec<TransactionView> = self
+            .get_iter(
+                COLUMN_BLOCK_BODY,
+                IteratorMode::From(prefix, Direction::Forward),
+            )
+            .take_while(|(key, _)| key.starts_with(prefix))
+            .map(|(_key, value)| {
+                let reader = packed::TransactionViewReader::from_slice_should_be_ok(value.as_ref());
+                Into::<TransactionView>::into(reader)
+            })
+            .collect();
+        if body.is_empty()
+            && let Some(block) = self.get_frozen_block(hash)
+        {
+            return block
+                .transactions()
+                .into_iter()
+                .map(|tx| tx.into_view())
+                .collect();
+        }
+        body
     }
 
     /// Get unfrozen block from ky-store with given hash
@@ -154,7 +183,7 @@ pub trait ChainStore: Send + Sync + Sized {
         };
 
         let prefix = hash.as_slice();
-        let ret: Vec<_> = self
+        let mut ret: Vec<_> = self
             .get_iter(
                 COLUMN_BLOCK_BODY,
                 IteratorMode::From(prefix, Direction::Forward),
@@ -165,6 +194,15 @@ pub trait ChainStore: Send + Sync + Sized {
                 reader.hash().to_entity()
             })
             .collect();
+        if ret.is_empty()
+            && let Some(block) = self.get_frozen_block(hash)
+        {
+            ret = block
+                .transactions()
+                .into_iter()
+                .map(|tx| tx.calc_tx_hash())
+                .collect();
+        }
 
         if let Some(cache) = self.cache() {
             cache.block_tx_hashes.lock().put(hash.clone(), ret.clone());
@@ -189,7 +227,8 @@ pub trait ChainStore: Send + Sync + Sized {
             .map(|slice| {
                 packed::ProposalShortIdVecReader::from_slice_should_be_ok(slice.as_ref())
                     .to_entity()
-            });
+            })
+            .or_else(|| self.get_frozen_block(hash).map(|block| block.proposals()));
 
         if let Some(cache) = self.cache() {
             ret.inspect(|data| {
@@ -208,10 +247,17 @@ pub trait ChainStore: Send + Sync + Sized {
             return Some(data.clone());
         };
 
-        let ret = self.get(COLUMN_BLOCK_UNCLE, hash.as_slice()).map(|slice| {
-            let reader = packed::UncleBlockVecViewReader::from_slice_should_be_ok(slice.as_ref());
-            Into::<UncleBlockVecView>::into(reader)
-        });
+        let ret = self
+            .get(COLUMN_BLOCK_UNCLE, hash.as_slice())
+            .map(|slice| {
+                let reader =
+                    packed::UncleBlockVecViewReader::from_slice_should_be_ok(slice.as_ref());
+                Into::<UncleBlockVecView>::into(reader)
+            })
+            .or_else(|| {
+                self.get_frozen_block(hash)
+                    .map(|block| block.into_view().uncles())
+            });
 
         if let Some(cache) = self.cache() {
             ret.inspect(|uncles| {
@@ -232,7 +278,11 @@ pub trait ChainStore: Send + Sync + Sized {
 
         let ret = self
             .get(COLUMN_BLOCK_EXTENSION, hash.as_slice())
-            .map(|slice| packed::BytesReader::from_slice_should_be_ok(slice.as_ref()).to_entity());
+            .map(|slice| packed::BytesReader::from_slice_should_be_ok(slice.as_ref()).to_entity())
+            .or_else(|| {
+                self.get_frozen_block(hash)
+                    .and_then(|block| block.extension())
+            });
 
         if let Some(cache) = self.cache() {
             cache.block_extensions.lock().put(hash.clone(), ret.clone());
@@ -465,10 +515,16 @@ pub trait ChainStore: Send + Sync + Sized {
         let key = packed::TransactionKey::new_builder()
             .block_hash(hash.to_owned())
             .build();
-        self.get(COLUMN_BLOCK_BODY, key.as_slice()).map(|slice| {
-            let reader = packed::TransactionViewReader::from_slice_should_be_ok(slice.as_ref());
-            Into::<TransactionView>::into(reader)
-        })
+        self.get(COLUMN_BLOCK_BODY, key.as_slice())
+            .map(|slice| {
+                let reader = packed::TransactionViewReader::from_slice_should_be_ok(slice.as_ref());
+                Into::<TransactionView>::into(reader)
+            })
+            .or_else(|| {
+                self.get_frozen_block(hash)
+                    .and_then(|block| block.transactions().get(0))
+                    .map(|tx| tx.into_view())
+            })
     }
 
     /// Gets latest built filter data block hash
@@ -491,6 +547,9 @@ pub trait ChainStore: Send + Sync + Sized {
 
     /// Gets block bytes by block hash
     fn get_packed_block(&self, hash: &packed::Byte32) -> Option<packed::Block> {
+        if let Some(block) = self.get_frozen_block(hash) {
+            return Some(block);
+        }
         let header = self
             .get(COLUMN_BLOCK_HEADER, hash.as_slice())
             .map(|slice| {
